@@ -26,6 +26,7 @@ var c18Relevant = map[string][]string{
 	"C08": {"alg/heuristic/heuristic.go", "alg/contfrac/contfrac.go", "internal/bigints/bigints.go"},
 	"C11": {"alg/dict/runs.go", "chain.go", "program.go", "internal/bigints/bigints.go"},
 	"C09": {"alg/dict/dict.go"},
+	"C01": {"alg/dict/dict.go"},
 }
 
 func init() {
@@ -78,7 +79,9 @@ var c18Targets = []struct{ file, key string }{
 	{"chain.go", "Chain.End"}, {"chain.go", "Chain.IsAscending"}, {"chain.go", "Chain.Ops"},
 	{"chain.go", "Chain.Op"}, {"chain.go", "Chain.Program"}, {"chain.go", "Chain.Validate"}, {"chain.go", "Chain.Produces"},
 	{"chain.go", "Chain.Superset"}, {"chain.go", "Chain.Clone"}, {"chain.go", "Product"}, {"chain.go", "Plus"},
-	{"alg/dict/runs.go", "dict.RunsChain"}, {"alg/dict/dict.go", "dict.FixedWindow.Decompose"},
+	{"alg/dict/runs.go", "dict.RunsChain"}, {"alg/dict/dict.go", "dict.Term.Int"}, {"alg/dict/dict.go", "dict.Sum.Int"},
+	{"alg/dict/dict.go", "dict.Sum.Dictionary"}, {"alg/dict/dict.go", "dict.FixedWindow.Decompose"},
+	{"alg/dict/dict.go", "dict.dictsumchain"},
 	{"alg/opt/opt.go", "opt.pruneuses"}, {"alg/opt/opt.go", "opt.Optimize"},
 	{"alg/heuristic/heuristic.go", "heuristic.Halving.Suggest"}, {"alg/heuristic/heuristic.go", "heuristic.DeltaLargest.Suggest"},
 	{"alg/heuristic/heuristic.go", "heuristic.Approximation.Suggest"},
